@@ -4,8 +4,8 @@ open Bc
 
 def parseEnt (s : String) : Ent :=
   match s.splitOn "." with
-  | [h, fl] => ⟨h.toNat!, fl.contains 's', !fl.contains 'x'⟩
-  | _ => ⟨0, false, false⟩
+  | [h, fl] => ⟨h.toNat!, fl.contains 's', !fl.contains 'x', fl.contains 'c'⟩
+  | _ => ⟨0, false, false, false⟩
 
 def parseChg (s : String) : Option Chg :=
   match s.splitOn ":" with
